@@ -109,6 +109,8 @@ type jobTimeout struct{}
 
 const moduleName = "github.com/free5gc/ike"
 
+var RepoRoot = "/repo"
+
 func isRepoPkg(p *types.Package) bool {
 	return p != nil && (p.Path() == moduleName || strings.HasPrefix(p.Path(), moduleName+"/")) &&
 		!strings.HasSuffix(p.Path(), "/internal/verifrt")
@@ -122,8 +124,8 @@ func sitePos(prog *ssa.Program, pos token.Pos) string {
 	}
 	p := prog.Fset.Position(pos)
 	f := p.Filename
-	if i := strings.Index(f, "/repo/"); i >= 0 {
-		f = f[i+6:]
+	if strings.HasPrefix(f, RepoRoot+"/") {
+		f = f[len(RepoRoot)+1:]
 	}
 	return fmt.Sprintf("%s:%d", f, p.Line)
 }
